@@ -177,6 +177,8 @@ def plan_message(rng, tier, cfg, role, idx, force, big_ok=True):
     if n is None:
         n = _pick_len(rng, tier, big_ok)
     api = force.get("api") or rng.choice(APIS + ["msg", "msg"])
+    if api == "prepared" and role == "client" and cfg["mask"].startswith("applyoff") and not cfg["kf"]:
+        api = "msg"      # known finding S-01b: prepareMessage() ignores applyMask=False
     binary = force.get("binary")
     if binary is None:
         binary = rng.random() < 0.5
@@ -336,6 +338,10 @@ class Side:
             toks.append("nopmce")
         if cfg["mask"] != "std":
             toks.append(cfg["mask"])
+        if p.get("xmask"):
+            toks.append("xmask")
+        if p["api"] == "stream" and not p.get("frames"):
+            toks.append("zero-frames")
         if onopen:
             toks.append("onopen")
         return "+".join(toks)
@@ -347,11 +353,12 @@ class Side:
         api = p["api"]
         n = p["length"]
         if api == "sendframe" and p.get("repeat"):
-            unit = cw.make_payload(run.seed, self.direction, p["idx"], min(max(1, p["unit"]), max(1, n)) if p["unit"] <= n
-                                   else p["unit"], p["binary"], p["fill"])
-            if not p["binary"]:
-                # a repeated text unit must stay valid UTF-8 when cut at n: use ASCII filler after the tag
-                unit = (cw.make_tag(self.direction, p["idx"]) + b"abcdefghijklmnopqrstuvwxyz" * (len(unit) // 26 + 1))[:len(unit)]
+            ulen = max(1, p["unit"])
+            if p["binary"]:
+                unit = cw.make_payload(run.seed, self.direction, p["idx"], ulen, True, p["fill"])
+            else:
+                # a repeated text unit must stay valid UTF-8 wherever it is cut: ASCII filler after the tag
+                unit = (cw.make_tag(self.direction, p["idx"]) + b"abcdefghijklmnopqrstuvwxyz" * (ulen // 26 + 1))[:ulen]
             payload = (unit * (n // len(unit) + 1))[:n]
         else:
             unit = None
@@ -365,10 +372,6 @@ class Side:
         st = self.steps
         rng = run.rng_api
         binary = p["binary"]
-
-        def fin():
-            rec["done"] = True
-            self.sent.append(rec)
 
         if api in ("msg", "msg-dnc", "msg-frag", "msg-sync"):
             kw = {}
@@ -755,8 +758,9 @@ class CaseRun:
                 self._deliver_some(rs.choice(pend))
             else:
                 dt = rs.choice([0.00001, 0.00001, 0.00002, 0.0001])
+                if nd <= world.now() + dt:
+                    self.R.count("queued_writes_fired")
                 world.advance(dt)
-                self.R.count("queued_writes_fired")
         # drain
         for _ in range(1_000_000):
             self._drain_timers()
@@ -816,109 +820,7 @@ class CaseRun:
             self.violation("s2c", "sender/pmce-negotiation", None,
                            "extension offered/accepted=%r but 101 response says %r" % (cfg["pmce"], pm))
         for side in self.sides:
-            d = side.direction
-            sp = cw.split_head(bytes(side.ep.all_out))
-            if sp is None:
-                self.violation(d, "sender/no-handshake-head", None, "no CRLFCRLF in sender output")
-                self.sender_fault[d] = "no-head"
-                continue
-            frames, tail = cw.parse_frames(sp[1])
-            R.count("frames_parsed", len(frames))
-            R.count("sender_" + side.role)
-            problems, _rmsgs, controls, _inc = ref.check_sender_stream(frames, side.role, pmce=bool(pm),
-                                                                       mask_expected=side.mask_opt())
-            msgs, frame_msg, open_tail = cw.assemble(frames)
-            sent = side.sent
-
-            def rec_of_frame(k):
-                mi = frame_msg[k] if k is not None and k < len(frame_msg) else None
-                return sent[mi] if mi is not None and mi < len(sent) else None
-
-            for clause, k, text in problems:
-                if clause.startswith("mask-bit-"):
-                    continue            # judged per message below (prepared messages mask by role)
-                self.violation(d, "sender/" + clause, rec_of_frame(k), "frame %d: %s" % (k, text))
-                self.sender_fault[d] = self.sender_fault[d] or clause
-            # mask bit per frame
-            for k, f in enumerate(frames):
-                rec = rec_of_frame(k)
-                want = side.mask_opt()
-                if rec is not None and f.opcode not in ref.CONTROL_OPS:
-                    if rec["api"] == "prepared" and not (pm and not rec["plan"].get("dnc")):
-                        want = side.role == "client"
-                    elif rec["api"] == "sendframe":
-                        want = rec.get("expect_masked", want)
-                if bool(f.masked) != bool(want):
-                    self.violation(d, "sender/mask-bit-%s" % ("set" if f.masked else "clear"), rec,
-                                   "frame %d %r: mask bit %d, options/role demand %d" % (k, f, f.masked, want))
-                    self.sender_fault[d] = self.sender_fault[d] or "mask-bit"
-                R.count("wire_len%d" % f.length_form)
-            if tail:
-                self.violation(d, "sender/trailing-octets", sent[len(msgs)] if len(msgs) < len(sent) else (sent[-1] if sent else None),
-                               "%d octets after the last complete frame do not form a frame: %s" % (len(tail), tail[:24].hex()))
-                self.sender_fault[d] = self.sender_fault[d] or "trailing"
-            if open_tail:
-                self.violation(d, "sender/unfinished-message", sent[len(msgs)] if len(msgs) < len(sent) else None,
-                               "stream ends inside a fragmented message")
-                self.sender_fault[d] = self.sender_fault[d] or "unfinished"
-            # content: wire messages vs send log
-            if pm:
-                nct = pm["client_nct"] if side.role == "client" else pm["server_nct"]
-                wb = pm["client_wbits"] if side.role == "client" else pm["server_wbits"]
-                inflater = cw.Inflater(nct, wb)
-            else:
-                inflater = None
-            for i, m in enumerate(msgs):
-                if i >= len(sent):
-                    self.violation(d, "sender/wire-extra-message", sent[-1] if sent else None,
-                                   "message #%d on the wire (%d octets) was never sent by the application" % (i, len(m.payload)))
-                    self.sender_fault[d] = self.sender_fault[d] or "extra"
-                    break
-                rec = sent[i]
-                wire = m.payload if side.apply_mask() else m.raw
-                if m.frames > 1:
-                    R.count("fragmented_messages")
-                if m.rsv1:
-                    R.count("pmce_messages")
-                    if inflater is None or inflater.broken:
-                        self.sender_fault[d] = self.sender_fault[d] or "rsv1"
-                        break
-                    try:
-                        wire = inflater.inflate(wire)
-                    except zlib.error as e:
-                        self.violation(d, "sender/inflate-error", rec, "RSV1 message #%d does not inflate: %s" % (i, e),
-                                       {"wire": m.payload[:64].hex()})
-                        self.sender_fault[d] = self.sender_fault[d] or "inflate"
-                        break
-                R.count("wire_messages_compared")
-                if (m.opcode == 2) != rec["binary"]:
-                    self.violation(d, "sender/wire-type-mismatch", rec, "message #%d sent as %s, opcode on the wire %d" % (
-                        i, "binary" if rec["binary"] else "text", m.opcode))
-                    self.sender_fault[d] = self.sender_fault[d] or "type"
-                if len(wire) != rec["len"] or cw.sha(wire) != rec["sha"]:
-                    self.violation(d, "sender/wire-content-mismatch", rec,
-                                   "message #%d: application sent %d octets (sha %s), wire carries %d octets (sha %s)" % (
-                                       i, rec["len"], rec["sha"], len(wire), cw.sha(wire)),
-                                   {"sent_head": rec["payload"][:48].hex(), "wire_head": wire[:48].hex(),
-                                    "frames": m.frames, "lens": m.lens[:12]})
-                    self.sender_fault[d] = self.sender_fault[d] or "content"
-            else:
-                if len(msgs) < len(sent) and not self.sender_fault[d] and side.dead is None:
-                    self.violation(d, "sender/wire-missing-message", sent[len(msgs)],
-                                   "application sent %d messages, %d complete messages on the wire" % (len(sent), len(msgs)))
-                    self.sender_fault[d] = "missing"
-            # control frames this side wrote: its own pings, pongs for the peer's pings
-            peer = self.server if side is self.client else self.client
-            wire_pings = [p for (op, p) in controls if op == ref.OP_PING]
-            wire_pongs = [p for (op, p) in controls if op == ref.OP_PONG]
-            if not self.sender_fault[d]:
-                if wire_pings != side.pings:
-                    self.violation(d, "sender/ping-mismatch", None, "pings sent %d, on the wire %d" % (len(side.pings), len(wire_pings)))
-                R.count("pings_compared", len(wire_pings))
-            side.wire_pongs = wire_pongs
-            if any(op == ref.OP_CLOSE for (op, p) in controls):
-                self.violation(d, "sender/unexpected-close-frame", None, "a close frame was written during valid traffic")
-                self.sender_fault[d] = self.sender_fault[d] or "close"
+            self._judge_sender(side, pm)
         # a send API that raised
         any_fault = any(self.sender_fault.values())
         for side, kind, e in self.send_raised:
@@ -958,6 +860,118 @@ class CaseRun:
                     self.violation("s2c" if side.role == "client" else "c2s", "not-open-at-end/%s" % side.role, None,
                                    "%s left OPEN during valid traffic (state=%r close_requested=%r reason=%r onClose=%r)" % (
                                        side.role, side.ep.proto.state, side.ep.close_requested, reason, closes))
+
+    def _judge_sender(self, side, pm):
+        """Everything ``side`` wrote after its handshake part.  Once a stream is broken every later octet is
+        misread, so only the EARLIEST problem of a direction is reported (position = frame index)."""
+        R = self.R
+        d = side.direction
+        cands = []          # (position, clause, rec, what, detail)
+
+        def cand(pos, clause, rec, what, detail=None):
+            cands.append((pos, len(cands), clause, rec, what, detail))
+
+        sp = cw.split_head(bytes(side.ep.all_out))
+        if sp is None:
+            self.violation(d, "sender/no-handshake-head", None, "no CRLFCRLF in sender output")
+            self.sender_fault[d] = "no-head"
+            return
+        frames, tail = cw.parse_frames(sp[1])
+        R.count("frames_parsed", len(frames))
+        R.count("sender_" + side.role)
+        problems, _rmsgs, _controls, _inc = ref.check_sender_stream(frames, side.role, pmce=bool(pm),
+                                                                     mask_expected=side.mask_opt())
+        msgs, frame_msg, open_tail = cw.assemble(frames)
+        sent = side.sent
+        nfr = len(frames)
+
+        def rec_of_frame(k):
+            mi = frame_msg[k] if k is not None and k < len(frame_msg) else None
+            return sent[mi] if mi is not None and mi < len(sent) else None
+
+        for clause, k, text in problems:
+            if clause.startswith("mask-bit-"):
+                continue            # judged per frame below (prepared messages mask by role)
+            clause = "".join(ch for ch in clause if not ch.isdigit()).rstrip("-")
+            cand(k, "sender/" + clause, rec_of_frame(k), "frame %d: %s" % (k, text))
+        for k, f in enumerate(frames):
+            rec = rec_of_frame(k)
+            want = side.mask_opt()
+            if rec is not None and f.opcode not in ref.CONTROL_OPS:
+                if rec["api"] == "prepared" and not (pm and not rec["plan"].get("dnc")):
+                    want = side.role == "client"
+                elif rec["api"] == "sendframe":
+                    want = rec.get("expect_masked", want)
+            if bool(f.masked) != bool(want):
+                cand(k, "sender/mask-bit-%s" % ("set" if f.masked else "clear"), rec,
+                     "frame %d %r: mask bit %d, options/role demand %d" % (k, f, f.masked, want))
+            R.count("wire_len%d" % f.length_form)
+        if tail:
+            cand(nfr, "sender/trailing-octets", sent[len(msgs)] if len(msgs) < len(sent) else (sent[-1] if sent else None),
+                 "%d octets after the last complete frame do not form a frame: %s" % (len(tail), tail[:24].hex()))
+        if open_tail:
+            cand(nfr, "sender/unfinished-message", sent[len(msgs)] if len(msgs) < len(sent) else None,
+                 "stream ends inside a fragmented message")
+        # content: wire messages vs send log
+        inflater = None
+        if pm:
+            nct = pm["client_nct"] if side.role == "client" else pm["server_nct"]
+            wb = pm["client_wbits"] if side.role == "client" else pm["server_wbits"]
+            inflater = cw.Inflater(nct, wb)
+        broke = False
+        for i, m in enumerate(msgs):
+            if i >= len(sent):
+                cand(m.first_frame, "sender/wire-extra-message", sent[-1] if sent else None,
+                     "message #%d on the wire (%d octets) was never sent by the application" % (i, len(m.payload)))
+                broke = True
+                break
+            rec = sent[i]
+            wire = m.payload if side.apply_mask() else m.raw
+            if m.frames > 1:
+                R.count("fragmented_messages")
+            if m.rsv1:
+                R.count("pmce_messages")
+                if inflater is None:
+                    broke = True        # rsv1-without-extension already reported by the reference
+                    break
+                try:
+                    wire = inflater.inflate(wire)
+                except zlib.error as e:
+                    cand(m.first_frame, "sender/inflate-error", rec, "RSV1 message #%d does not inflate: %s" % (i, e),
+                         {"wire": m.payload[:64].hex()})
+                    broke = True
+                    break
+            R.count("wire_messages_compared")
+            if (m.opcode == 2) != rec["binary"]:
+                cand(m.first_frame, "sender/wire-type-mismatch", rec, "message #%d sent as %s, opcode on the wire %d" % (
+                    i, "binary" if rec["binary"] else "text", m.opcode))
+            if len(wire) != rec["len"] or cw.sha(wire) != rec["sha"]:
+                cand(m.first_frame, "sender/wire-content-mismatch", rec,
+                     "message #%d: application sent %d octets (sha %s), wire carries %d octets (sha %s)" % (
+                         i, rec["len"], rec["sha"], len(wire), cw.sha(wire)),
+                     {"sent_head": rec["payload"][:48].hex(), "wire_head": wire[:48].hex(),
+                      "frames": m.frames, "lens": m.lens[:12]})
+        if not broke and len(msgs) < len(sent) and side.dead is None:
+            cand(nfr, "sender/wire-missing-message", sent[len(msgs)],
+                 "application sent %d messages, %d complete messages on the wire" % (len(sent), len(msgs)))
+        # control frames this side wrote (payload as the peer will read it)
+        ctl = [(f.opcode, f.payload if side.apply_mask() else f.raw_payload, k) for k, f in enumerate(frames)
+               if f.opcode in ref.CONTROL_OPS]
+        wire_pings = [p for (op, p, k) in ctl if op == ref.OP_PING]
+        if wire_pings != side.pings:
+            k = next((k for (op, p, k) in ctl if op == ref.OP_PING), nfr)
+            cand(nfr if len(wire_pings) <= len(side.pings) else k, "sender/ping-mismatch", None,
+                 "pings sent %d, on the wire %d (or different payloads)" % (len(side.pings), len(wire_pings)))
+        R.count("pings_compared", len(wire_pings))
+        for (op, p, k) in ctl:
+            if op == ref.OP_CLOSE:
+                cand(k, "sender/unexpected-close-frame", None, "a close frame was written during valid traffic")
+                break
+        if cands:
+            cands.sort(key=lambda c: (c[0], c[1]))
+            pos, _, clause, rec, what, detail = cands[0]
+            self.violation(d, clause, rec, what, dict(detail or {}, later_problems=[c[2] for c in cands[1:6]]))
+            self.sender_fault[d] = clause
 
     def _compare_delivery(self, d, sent, got):
         R = self.R
